@@ -296,5 +296,5 @@ func appendArrayElemIndent(ctx *encoder.RuntimeContext, code *encoder.Opcode, b 
 }
 
 func appendMapKeyIndent(ctx *encoder.RuntimeContext, code *encoder.Opcode, b []byte) []byte {
-	return appendIndent(ctx, b, code.Indent)
+	return appendIndent(ctx, b, code.Indent+1)
 }
